@@ -37,8 +37,12 @@ Ops == { "St204", "St304", "StKnown", "StUnreg", "Msg",
 KnownStatus == 1     \* placeholder values, never written on the wire
 UnregStatus == 2
 
-\* content tokens and their byte lengths in the harness
-TokLen(t) == CASE t = "S" -> 3        \* "abc"
+\* content tokens and their NOMINAL byte lengths.  The harness concretises the tokens either
+\* to these short contents or ("long" runs) to contents of 200..300 bytes, long enough to be
+\* compressed, and shifts the declared sizes of the S stream by the same amount, so that every
+\* relation declared =, <, > produced used below is preserved.
+LS == 3
+TokLen(t) == CASE t = "S" -> LS       \* "abc"
                [] t = "B" -> 5000     \* > the 4096 byte write buffer
                [] t = "A" -> 2        \* "de"
                [] t = "R" -> 7        \* "rawbody"
@@ -78,7 +82,7 @@ Apply(op, r) ==
     [] op \in {"Close", "HandConnClose"} -> [r EXCEPT !.close = TRUE]
     \* Content-Length written by hand on a stream body (re)declares the stream's size;
     \* on a buffered body the server owns the framing fields: no effect on the peer's view
-    [] op = "HandCL3"   -> IF IsStream(r.body) THEN [r EXCEPT !.body.decl = 3] ELSE r
+    [] op = "HandCL3"   -> IF IsStream(r.body) THEN [r EXCEPT !.body.decl = LS] ELSE r
     [] op = "TypedCLm1" -> IF IsStream(r.body) THEN [r EXCEPT !.body.decl = -1] ELSE r
     [] op = "HandTE"    -> r
     \* ctx.Error: "this will reset the response headers and body already set"
@@ -91,12 +95,12 @@ Apply(op, r) ==
          [r EXCEPT !.body = Body("buf",
              { c \o <<"A">> : c \in r.body.alts } \cup (IF r.body.kind = "buf" THEN {} ELSE {<<"A">>}), -2)]
     [] op = "RawR" -> [r EXCEPT !.body = Body("raw", {<<"R">>}, -2)]
-    [] op = "StrSExact" -> [r EXCEPT !.body = Stream(<<"S">>, 3)]
+    [] op = "StrSExact" -> [r EXCEPT !.body = Stream(<<"S">>, LS)]
     [] op = "StrSUnk"   -> [r EXCEPT !.body = Stream(<<"S">>, -1)]
     [] op = "StrBExact" -> [r EXCEPT !.body = Stream(<<"B">>, 5000)]
     [] op = "StrBUnk"   -> [r EXCEPT !.body = Stream(<<"B">>, -1)]
-    [] op = "StrSShort" -> [r EXCEPT !.body = Stream(<<"S">>, 5)]      \* yields 3 < 5 declared
-    [] op = "StrSLong"  -> [r EXCEPT !.body = Stream(<<"S">>, 2)]      \* yields 3 > 2 declared
+    [] op = "StrSShort" -> [r EXCEPT !.body = Stream(<<"S">>, LS + 2)] \* yields less than declared
+    [] op = "StrSLong"  -> [r EXCEPT !.body = Stream(<<"S">>, LS - 1)] \* yields more than declared
     [] op = "StrBLong"  -> [r EXCEPT !.body = Stream(<<"B">>, 4)]      \* yields 5000 > 4 declared
     [] op = "SW" -> [r EXCEPT !.body = Body("sw", {<<"W">>}, -1)]
     [] op = "SkipBody" -> [r EXCEPT !.skip = TRUE]
@@ -182,6 +186,36 @@ ParseOne(w) ==
        (IF Len(w) >= 2 /\ w[2].t = "bytes" /\ w[2].n = h.n THEN <<h.n, SubSeq(w, 3, Len(w))>> ELSE <<-1, <<>>>>)
   ELSE (IF Len(w) >= 3 /\ w[2].t = "bytes" /\ w[3].t = "last" THEN <<w[2].n, SubSeq(w, 4, Len(w))>> ELSE <<-1, <<>>>>)
 
+\* ------------------------------------------------------ connections and configurations
+\* Server options that change how buffers are handled or which default fields are added.
+\* PeerView takes no configuration argument: that IS the statement that none of them may
+\* change what the peer observes for a handler program.
+ServerConfigs == << "default", "reduce-memory", "small-buffers", "no-default-headers", "reduce-memory-small-buffers" >>
+
+\* A connection carries a BATCH of requests written at once (pipelining).  The peer must see
+\* the views of the programs one after the other, up to and including the first one after
+\* which the connection must be closed; nothing is served after that one.
+RECURSIVE ServedPrefix(_)
+ServedPrefix(views) ==
+  IF views = <<>> THEN <<>>
+  ELSE IF Head(views).mustClose THEN <<Head(views)>> ELSE <<Head(views)>> \o ServedPrefix(Tail(views))
+
+\* abstract wire of a batch and its parse: the concatenation of the units is read back unit by unit
+RECURSIVE BatchWire(_, _)
+BatchWire(views, contents) ==
+  IF views = <<>> THEN <<>> ELSE WireOf(Head(views), Head(contents)) \o BatchWire(Tail(views), Tail(contents))
+RECURSIVE ParseAll(_, _)
+ParseAll(w, n) == IF n = 0 THEN <<w>>
+                  ELSE LET res == ParseOne(w) IN <<res[1]>> \o ParseAll(res[2], n - 1)
+
+\* meta property for two programs' final states: the second response is found exactly at the end
+\* of the first one and the canary exactly at the end of the second
+BatchOK(r1, r2, h1, h2) ==
+  LET v1 == PeerView(r1, h1)  v2 == PeerView(r2, h2) IN
+  (~v1.mismatch /\ ~v2.mismatch) =>
+    \A c1 \in v1.bodies, c2 \in v2.bodies :
+      ParseAll(BatchWire(<<v1, v2>>, <<c1, c2>>) \o Canary, 2) = <<ContentLen(c1), ContentLen(c2), Canary>>
+
 \* properties of the reference itself, for one builder state
 RefOK(r) ==
   \A isHead \in BOOLEAN :
@@ -221,7 +255,7 @@ Spec == Init /\ [][Next]_vars
 TypeOK ==
   /\ r.status \in {200, 204, 304, 500, KnownStatus, UnregStatus}
   /\ r.body.kind \in {"buf", "raw", "stream", "sw"}
-  /\ r.body.decl \in {-2, -1, 2, 3, 4, 5, 5000}
+  /\ r.body.decl \in {-2, -1, LS - 1, LS, LS + 2, 4, 5000}
   /\ IsStream(r.body) <=> r.body.decl # -2
 
 \* "the last body setter wins": while no AppendBody intervened, the body the peer must see is
